@@ -42,10 +42,13 @@ type Suite struct {
 }
 
 type Ctx struct {
-	Tier    string
-	Seed    uint64
-	R       *Rng
-	reqs    []map[string]any
+	Tier string
+	Seed uint64
+	R    *Rng
+	reqs []map[string]any
+	// Ask sends one follow-up request to the Lean driver (e.g. the property's verdict on the implementation's own
+	// output when it differs from the model's); nil result when the driver is not available
+	Ask     func(req map[string]any) map[string]any
 	Tags    map[string]int
 	Ops     map[string]int
 	Notes   map[string]any
@@ -156,6 +159,14 @@ func main() {
 		os.Exit(3)
 	}
 	defer orc.Close()
+	ctx.Ask = func(q map[string]any) map[string]any {
+		q["i"] = 0
+		rs, aerr := orc.Batch([]map[string]any{q})
+		if aerr != nil || len(rs) != 1 {
+			return nil
+		}
+		return rs[0]
+	}
 	resps, err := orc.Batch(ctx.reqs)
 	if err != nil {
 		res.HarnessErr = "oracle: " + err.Error()
